@@ -60,7 +60,7 @@ class SGD(Optimizer):
         with synapgrad.no_grad():
             for i, p in enumerate(self.parameters):
                 if not p.requires_grad or p._grad is None: continue
-                grad = p._grad
+                grad = -p._grad if self.maximize else p._grad
                 
                 # Weight decay
                 if self.weight_decay != 0:
@@ -80,10 +80,7 @@ class SGD(Optimizer):
                         grad = self.momentum_buffer[i]
                 
                 # Update Parameter
-                if self.maximize:
-                    p.data += self.lr*grad
-                else:
-                    p.data -= self.lr*grad
+                p.data -= self.lr*grad
         
     
 class Adam(Optimizer):
